@@ -183,6 +183,9 @@ func (da *DistributedAllocator) Allocate(ctx context.Context, subscriberID strin
 	var prefix *net.IPNet
 	var epoch uint64
 
+	// A failed store write must only roll back an allocation made by this call
+	existed := da.holds(subscriberID)
+
 	// Use appropriate allocator based on mode
 	if da.mode == PoolModeLease {
 		// Lease mode: use epoch bitmap allocator
@@ -213,11 +216,13 @@ func (da *DistributedAllocator) Allocate(ctx context.Context, subscriberID strin
 	}
 
 	if err := da.saveAllocation(ctx, alloc); err != nil {
-		// Rollback local allocation
-		if da.mode == PoolModeLease {
-			da.epochAllocator.Release(ctx, subscriberID)
-		} else {
-			da.allocator.Release(subscriberID)
+		// Rollback local allocation (an allocation that existed before this call stays)
+		if !existed {
+			if da.mode == PoolModeLease {
+				da.epochAllocator.Release(ctx, subscriberID)
+			} else {
+				da.allocator.Release(subscriberID)
+			}
 		}
 		return nil, fmt.Errorf("save allocation: %w", err)
 	}
@@ -232,6 +237,9 @@ func (da *DistributedAllocator) AllocateWithMAC(ctx context.Context, subscriberI
 
 	var prefix *net.IPNet
 	var epoch uint64
+
+	// A failed store write must only roll back an allocation made by this call
+	existed := da.holds(subscriberID)
 
 	// Use appropriate allocator based on mode
 	if da.mode == PoolModeLease {
@@ -260,15 +268,25 @@ func (da *DistributedAllocator) AllocateWithMAC(ctx context.Context, subscriberI
 	}
 
 	if err := da.saveAllocation(ctx, alloc); err != nil {
-		if da.mode == PoolModeLease {
-			da.epochAllocator.Release(ctx, subscriberID)
-		} else {
-			da.allocator.Release(subscriberID)
+		if !existed {
+			if da.mode == PoolModeLease {
+				da.epochAllocator.Release(ctx, subscriberID)
+			} else {
+				da.allocator.Release(subscriberID)
+			}
 		}
 		return nil, fmt.Errorf("save allocation: %w", err)
 	}
 
 	return prefix, nil
+}
+
+// holds reports whether the subscriber has an allocation in memory (caller holds da.mu).
+func (da *DistributedAllocator) holds(subscriberID string) bool {
+	if da.mode == PoolModeLease {
+		return da.epochAllocator.Lookup(subscriberID) != nil
+	}
+	return da.allocator.Lookup(subscriberID) != nil
 }
 
 // Renew updates the epoch for an existing allocation (lease mode).
